@@ -24,11 +24,12 @@ RULE = (
     "valid BF3/BEC2/BF2 files from the independent models, then character/byte mutation, deletion, duplication, insertion, truncation, line deletion/duplication/reordering, "
     "binary-level byte edits and STRUCTURED FIELD EDITS WITH BOTH MACs RECOMPUTED (so the input passes authentication and reaches the code behind it), edits of the BEC2 header "
     "TLVs (empty values, truncated values, unknown tags, selector changes) and BF2 instruction edits (instructions before any data, repeated REBOOT, unknown protocols, malformed "
-    "parameters); (2) coverage-guided fuzzing with atheris of the same targets through a byte->(structured edit) decoder (thorough tier / tools), (3) unstructured random text. "
+    "parameters); (2) coverage-guided fuzzing with atheris/libFuzzer of the same targets through a byte->(structured case) data-provider layer (tools/fuzz_c14.py; fixed -runs/-seed per shard, empty corpus), (3) unstructured random text. "
     "Oracle: the call returns, or raises a bec2format FormatError subclass or a ValueError subclass; anything else is bucketed by (exception type, repo module, function of the "
     "innermost repository frame) and reported per bucket; after every call the crypto registry, AUTH_BLOCK_CLS_MAP and the module-level tables are compared with a snapshot; a "
     "SIGALRM watchdog (10 s, inputs <= 64 KiB) re-runs a slow input in a fresh process (60 s) before calling it a hang. "
-    "Non-trivial = the input reaches beyond the text/hex front end (signature intact per the model, or a BF2 text with >= 1 data line); distinct by (target, input hash)."
+    "Non-trivial = the input reaches beyond the text/hex front end (signature intact per the model, or a BF2 text with >= 1 data line); distinct by (target, input hash); "
+    "for the atheris part: the number of coverage-distinct corpus entries libFuzzer kept."
 )
 ASSUMPTIONS = [
     "allowed outcomes are exactly: return, FormatError subclass, ValueError subclass (UnicodeDecodeError and binascii.Error are ValueError subclasses)",
@@ -466,8 +467,46 @@ def check_random(case, rec):
         raise Violation(msg)
 
 
+def bulk_atheris(tier, shard, nshards, rec, rng):
+    """coverage-guided layer: tools/fuzz_c14.py (atheris/libFuzzer) from an empty corpus, fixed -runs and -seed per shard"""
+    import json
+    import shutil
+
+    runs = 12000 if tier == "quick" else 400000
+    d = tempfile.mkdtemp(prefix="c14fz-")
+    try:
+        corpus = os.path.join(d, "corpus")
+        os.makedirs(corpus)
+        cmd = [sys.executable, os.path.join(env.VERIF, "tools", "fuzz_c14.py"), "-runs=%d" % runs, "-seed=%d" % (1 + rng.getrandbits(30)), "-max_len=192", "-timeout=30", corpus]
+        r = subprocess.run(cmd, capture_output=True, text=True, cwd=d, env=dict(os.environ, VERIF_OUT=d))
+        out = r.stdout + r.stderr
+        if "ATHERIS-UNAVAILABLE" in out:
+            rec.note("atheris not installed (/verif/.deps missing): coverage-guided layer skipped")
+            return None
+        n_corpus = len(os.listdir(corpus))
+        done = next((int(l.split()[1]) for l in out.splitlines() if l.startswith("Done ")), None)
+        if "FUZZ-VIOLATION" in out:
+            rp = os.path.join(d, "replay", "C14")
+            f = sorted(os.listdir(rp))[0]
+            doc = json.load(open(os.path.join(rp, f)))
+            from vlib.core import dec
+
+            return dec(doc["case"]), "[found by atheris] " + doc["msg"]
+        if done is None:
+            from vlib.core import HarnessError
+
+            raise HarnessError("atheris campaign ended abnormally (exit %d): %s" % (r.returncode, out[-1500:]))
+        rec.bulk("atheris", done, n_corpus, sample=dict(libfuzzer_runs=done, coverage_distinct_corpus_entries=n_corpus, max_len=192))
+        rec.cls("atheris.runs", done)
+        rec.cls("atheris.corpus-entries", n_corpus)
+        return None
+    finally:
+        shutil.rmtree(d, True)
+
+
 def parts(tier):
     return [
+        Part("atheris", bulk=bulk_atheris, check=check, quick=(8, 0), thorough=(16, 0)),
         Part("mutated", check=check, strategy=strat_files, quick=(16, 400), thorough=(16, 8000)),
         Part("bf2", check=check, strategy=strat_bf2, quick=(16, 150), thorough=(16, 4000)),
         Part("small", check=check, strategy=strat_small, quick=(4, 500), thorough=(8, 10000)),
